@@ -5,6 +5,12 @@
 pub use libc::*;
 
 pub unsafe fn io_uring_setup(entries: c_uint, p: *mut io_uring_params) -> c_int {
+    #[cfg(a10_verif)]
+    if let Some(table) = crate::verif::sys_table() {
+        if let Some(ret) = (table.setup)(entries, p.cast()) {
+            return crate::verif::ret(ret) as _;
+        }
+    }
     syscall(SYS_io_uring_setup, entries as c_long, p as c_long) as _
 }
 
@@ -14,6 +20,12 @@ pub unsafe fn io_uring_register(
     arg: *const c_void,
     nr_args: c_uint,
 ) -> c_int {
+    #[cfg(a10_verif)]
+    if let Some(table) = crate::verif::sys_table() {
+        if let Some(ret) = (table.register)(fd, opcode, arg, nr_args) {
+            return crate::verif::ret(ret) as _;
+        }
+    }
     syscall(
         SYS_io_uring_register,
         fd as c_long,
@@ -31,6 +43,12 @@ pub unsafe fn io_uring_enter2(
     arg: *const libc::c_void,
     size: usize,
 ) -> c_int {
+    #[cfg(a10_verif)]
+    if let Some(table) = crate::verif::sys_table() {
+        if let Some(ret) = (table.enter)(fd, to_submit, min_complete, flags, arg, size) {
+            return crate::verif::ret(ret) as _;
+        }
+    }
     syscall(
         SYS_io_uring_enter,
         fd as c_long,
@@ -40,6 +58,51 @@ pub unsafe fn io_uring_enter2(
         arg as c_long,
         size as c_long,
     ) as _
+}
+
+// Verification hooks: explicit items shadow the `libc::*` glob import above, so
+// all io_uring code that names `libc::mmap` etc. goes through these.
+#[cfg(a10_verif)]
+pub unsafe fn mmap(
+    addr: *mut c_void,
+    len: size_t,
+    prot: c_int,
+    flags: c_int,
+    fd: c_int,
+    offset: off_t,
+) -> *mut c_void {
+    if let Some(table) = crate::verif::sys_table() {
+        if let Some(ret) = (table.mmap)(len, prot, flags, fd, offset) {
+            crate::verif::ret(ret);
+            return MAP_FAILED;
+        }
+        let ptr = ::libc::mmap(addr, len, prot, flags, fd, offset);
+        if ptr != MAP_FAILED {
+            (table.mapped)(ptr, len, fd, offset);
+        }
+        return ptr;
+    }
+    ::libc::mmap(addr, len, prot, flags, fd, offset)
+}
+
+#[cfg(a10_verif)]
+pub unsafe fn munmap(addr: *mut c_void, len: size_t) -> c_int {
+    if let Some(table) = crate::verif::sys_table() {
+        if let Some(ret) = (table.munmap)(addr, len) {
+            return crate::verif::ret(ret) as _;
+        }
+    }
+    ::libc::munmap(addr, len)
+}
+
+#[cfg(a10_verif)]
+pub unsafe fn close(fd: c_int) -> c_int {
+    if let Some(table) = crate::verif::sys_table() {
+        if let Some(ret) = (table.close)(fd) {
+            return crate::verif::ret(ret) as _;
+        }
+    }
+    ::libc::close(fd)
 }
 
 // Work around for <https://github.com/rust-lang/rust-bindgen/issues/1642>,
